@@ -323,6 +323,10 @@ def data_cases(tier, seed):
 
 
 def long_cases(tier):
+    # very long single cases (block boundaries of a chunked implementation fall inside the data)
+    for n in (2500,) if tier == "quick" else (2500, 9000):
+        for score, b, mdi, ts in (("CUSUM", 25, 3, 1.0), ("L2cost", 40, 1, 2.0), ("GV", 30, 2, 1.0)):
+            yield {"fam": "data", "x": util.very_long_series(n), "score": score, "b": b, "mdi": mdi, "thr_scale": ts}
     for n in (16, 24) if tier == "quick" else (16, 24, 32, 40):
         for b, mdi in ((4, 1), (6, 2), (5, 1), (8, 3)):
             if n < 2 * b:
